@@ -659,6 +659,29 @@ pub(crate) async fn fashare(
     if dm_k.iter().flatten().any(|dm| dm.len() != 1 + (n - 1) * 16) {
         return Err(Error::InvalidLength);
     }
+    // Before we use the bits claimed by the other parties to decide which of d0 / d1 we open,
+    // check that each decommitment matches its commitment and that the claimed bit carries a
+    // valid MAC under our own key. Otherwise a party lying about its bit makes us open
+    // d0 ^ delta, which XORed with the MAC it holds is our global key.
+    for k in (0..n).filter(|k| *k != i) {
+        for r in 0..RHO {
+            let dm = &dm_k[k][r];
+            if !open_commitment(&c0_c1_cm_k[k][r].2, dm) {
+                return Err(Error::CommitmentCouldNotBeOpened);
+            }
+            if dm[0] > 1 {
+                return Err(Error::InvalidBitValue);
+            }
+            let start = if i > k { 1 + (i - 1) * 16 } else { 1 + i * 16 };
+            let Ok(mac) = dm[start..start + 16].try_into().map(u128::from_be_bytes) else {
+                return Err(Error::ConversionErr);
+            };
+            let (_, key) = xishares[l + r].1.0[k];
+            if mac != key.0 ^ (dm[0] as u128 * delta.0) {
+                return Err(Error::AShareWrongMAC);
+            }
+        }
+    }
 
     // 3 c) Compute bi to determine di_bi and send to all parties.
     let mut bi = [false; RHO];
